@@ -69,7 +69,9 @@ type Crash struct {
 	Mode Mode
 }
 
-func (c *Crash) String() string { return fmt.Sprintf("injected %s at op %d %s %s", c.Mode, c.Op.Index, c.Op.Kind, c.Op.Detail) }
+func (c *Crash) String() string {
+	return fmt.Sprintf("injected %s at op %d %s %s", c.Mode, c.Op.Index, c.Op.Kind, c.Op.Detail)
+}
 
 // Injector numbers operations and fires the armed fault.
 type Injector struct {
@@ -85,6 +87,10 @@ type Injector struct {
 	keep    bool
 	open    map[*Txn]struct{}
 	after   int // operations seen after the fault fired
+
+	// OnCrash, when set, is called at the crash point instead of panicking (a real-process harness sets
+	// it to kill the process: SIGKILL to itself). If it returns, the panic follows.
+	OnCrash func(*Crash)
 }
 
 func NewInjector() *Injector {
@@ -102,7 +108,11 @@ func (in *Injector) Arm(at int, m Mode) { in.mu.Lock(); in.at, in.mode = at, m; 
 func (in *Injector) Count() int { in.mu.Lock(); defer in.mu.Unlock(); return in.n }
 
 // Trace returns the numbered operations.
-func (in *Injector) Trace() []Op { in.mu.Lock(); defer in.mu.Unlock(); return append([]Op(nil), in.trace...) }
+func (in *Injector) Trace() []Op {
+	in.mu.Lock()
+	defer in.mu.Unlock()
+	return append([]Op(nil), in.trace...)
+}
 
 // Fired returns the operation at which the armed fault fired (nil if it did not).
 func (in *Injector) Fired() *Op { in.mu.Lock(); defer in.mu.Unlock(); return in.fired }
@@ -170,7 +180,7 @@ func (in *Injector) Do(kind, detail string, write bool, op func() error) error {
 	if hit {
 		switch mode {
 		case CrashBefore:
-			panic(&Crash{Op: o, Mode: mode})
+			in.crash(&Crash{Op: o, Mode: mode})
 		case Error:
 			in.mu.Lock()
 			in.depth--
@@ -184,10 +194,17 @@ func (in *Injector) Do(kind, detail string, write bool, op func() error) error {
 	if hit && mode == CrashAfter {
 		in.dead = true
 		in.mu.Unlock()
-		panic(&Crash{Op: o, Mode: mode})
+		in.crash(&Crash{Op: o, Mode: mode})
 	}
 	in.mu.Unlock()
 	return err
+}
+
+func (in *Injector) crash(c *Crash) {
+	if in.OnCrash != nil {
+		in.OnCrash(c)
+	}
+	panic(c)
 }
 
 // Recover runs f and returns the injected crash that unwound it (nil if f returned). Foreign panics propagate.
